@@ -58,7 +58,7 @@ def replay_case(col, item):
             fs_by_cov[cov] = FileSet(os.path.join(base, template), time_coverage=tc)
         return fs_by_cov[cov]
     start_exp = to_dt(case["start"])
-    s = to_dt(case["s"], extra_us=case["s"][6] % 2 * 499)      # sub-millisecond part must be truncated, not rounded
+    s = to_dt(case["s"], extra_us=case["s"][6] % 2 * 600)      # sub-millisecond part must be truncated, not rounded
     nontrivial = False
     for e_abs, fields, end_abs in case["rows"]:
         e = to_dt(e_abs)
